@@ -121,6 +121,9 @@ type Exec struct {
 	pcParts   map[string]pcPart
 	heapForms map[string]heapForm
 	specEq    bool
+	inYield   bool
+	loadInitial bool
+	loadObj   Term
 	sconcatAx bool
 	lemmasUsed map[string]bool
 }
@@ -366,22 +369,36 @@ func (ex *Exec) loadIn(st *State, p PtrV) Value {
 			base = "glob<" + p.Glob.Pkg.Pkg.Name() + "." + p.Glob.Name() + ">" + pathString(p.Root, p.Path)
 		}
 		var ts []Term
+		initial := true // every leaf is read from the heap as it was at function entry
 		for _, l := range leavesOf(t) {
 			ls := leafSortFix(ex, l)
 			var v Term
+			var h Term
 			switch p.Kind {
 			case pObj:
-				v = Sel(ex.heapGetIn(st, base+l.path, ArrSort(SInt, ls)), p.Ref)
+				h = ex.heapGetIn(st, base+l.path, ArrSort(SInt, ls))
+				v = Sel(h, p.Ref)
 			case pElem:
-				v = Sel(Sel(ex.heapGetIn(st, base+l.path, ArrSort(SInt, ArrSort(SInt, ls))), p.Ref), p.Idx)
+				h = ex.heapGetIn(st, base+l.path, ArrSort(SInt, ArrSort(SInt, ls)))
+				v = Sel(Sel(h, p.Ref), p.Idx)
 			default:
-				v = ex.heapGetIn(st, base+l.path, ls)
+				h = ex.heapGetIn(st, base+l.path, ls)
+				v = h
+			}
+			if h0, ok := ex.heap0[base+l.path]; !ok || h0.S != h.S {
+				initial = false
 			}
 			ts = append(ts, v)
 		}
 		val := ex.unflatten(t, &ts)
 		if st == ex.st {
+			ex.loadInitial = initial
+			ex.loadObj = p.Ref
+			if p.Kind == pGlobal {
+				ex.loadObj = I(0)
+			}
 			ex.assumeLoaded(val, t, st.pc)
+			ex.loadInitial = false
 		}
 		return val
 	}
@@ -390,24 +407,32 @@ func (ex *Exec) loadIn(st *State, p PtrV) Value {
 
 // assumeLoaded: loaded integers are in range, loaded slice headers are sane.
 func (ex *Exec) assumeLoaded(v Value, t types.Type, pc Term) {
+	bound := ex.st.alloc
+	if ex.loadInitial && ex.alloc0.S != "" && ex.loadObj.S != "" {
+		// the entry heap only refers to memory that existed at entry -- for objects that existed at
+		// entry themselves (the entry-heap value at a later-allocated ref stands for the allocator's
+		// initialisation of that object)
+		bound = Ite(Lt(ex.loadObj, ex.alloc0), ex.alloc0, ex.st.alloc)
+	}
+	_ = bound
 	switch x := v.(type) {
 	case Sc:
 		if isInteger(t) {
 			ex.vc.Assume(pc, inRange(x.T, t), "")
 		} else if _, isRef := refLike(t); isRef {
 			// the heap only holds references to memory that has been allocated
-			ex.vc.Assume(pc, And(Ge(x.T, I(0)), Lt(x.T, ex.st.alloc)), "")
+			ex.vc.Assume(pc, And(Ge(x.T, I(0)), Lt(x.T, bound)), "")
 		}
 	case PtrV:
 		if x.Kind == pObj && len(x.Path) == 0 {
-			ex.vc.Assume(pc, And(Ge(x.Ref, I(0)), Lt(x.Ref, ex.st.alloc)), "")
+			ex.vc.Assume(pc, And(Ge(x.Ref, I(0)), Lt(x.Ref, bound)), "")
 		}
 	case FuncV:
 		if x.Ref.S != "" {
-			ex.vc.Assume(pc, And(Ge(x.Ref, I(0)), Lt(x.Ref, ex.st.alloc)), "")
+			ex.vc.Assume(pc, And(Ge(x.Ref, I(0)), Lt(x.Ref, bound)), "")
 		}
 	case SliceV:
-		ex.vc.Assume(pc, And(Ge(x.Off, I(0)), Ge(x.Len, I(0)), Le(x.Len, x.Cap), Ge(x.Ptr, I(0)), Lt(x.Ptr, ex.st.alloc), Le(x.Cap, IStr("4611686018427387904")),
+		ex.vc.Assume(pc, And(Ge(x.Off, I(0)), Ge(x.Len, I(0)), Le(x.Len, x.Cap), Ge(x.Ptr, I(0)), Lt(x.Ptr, bound), Le(x.Cap, IStr("4611686018427387904")),
 			Implies(Eq(x.Ptr, I(0)), And(Eq(x.Len, I(0)), Eq(x.Cap, I(0))))), "")
 	case StructV:
 		st := t.Underlying().(*types.Struct)
